@@ -70,7 +70,6 @@ func (p *pool) newWorker(i int) *worker {
 	}}
 }
 
-var elided = regexp.MustCompile(`\.\.\.[0-9]+ frames elided\.\.\.`)
 
 // postMortem reads (and resets) what the dead worker wrote to stderr.
 func (w *worker) postMortem() (what, site string) {
